@@ -26,8 +26,8 @@ From Coq Require Import ZArith List Bool.
 Import ListNotations.
 Open Scope Z_scope.
 
-Definition addr := Z.
-Definition time := Z.
+Notation addr := Z (only parsing).
+Notation time := Z (only parsing).
 
 (* ---------- association-list stores ---------- *)
 Section Store.
@@ -47,8 +47,8 @@ Section Store.
     match sget k m with Some _ => true | None => false end.
 End Store.
 
-Definition k2 := (Z * Z)%type.            (* (delegator, validator) | (address, denom) | (proposal, address) *)
-Definition k3 := (Z * (Z * Z))%type.      (* (delegator, (src validator, dst validator)) *)
+Notation k2 := (Z * Z)%type (only parsing).            (* (delegator, validator) | (address, denom) | (proposal, address) *)
+Notation k3 := (Z * (Z * Z))%type (only parsing).      (* (delegator, (src validator, dst validator)) *)
 Definition pkeqb {R} (reqb : R -> R -> bool) (a b : Z * R) : bool := (fst a =? fst b) && reqb (snd a) (snd b).
 Definition k2_eqb : k2 -> k2 -> bool := pkeqb Z.eqb.
 Definition k3_eqb : k3 -> k3 -> bool := pkeqb k2_eqb.
